@@ -325,6 +325,23 @@ Section L.
     destruct (detached F lvalidate lto_python ldefault lcallable lflag vrun w sdyn svs sfs dops) as [w1 src].
     eapply reject_unchanged; [| exact H | exact Ho]. destruct r; reflexivity.
   Qed.
+  (* ... and over histories in which the caller keeps a refused object, works on it and offers it again: whatever the step,
+     a side-built or re-offered object that is refused leaves the configuration as it was *)
+  Theorem reject_kept_obj_unchanged : forall ps x w last pre c dyn vs fs w' last' c' oc1,
+    match x with XOp _ => False | _ => True end ->
+    at_path_xs F lvalidate lto_python ldefault lcallable lflag vrun ps w last pre c dyn vs fs x = (w', last', c', oc1) ->
+    oc1 <> OOk -> c' = c.
+  Proof.
+    intros ps x w last pre c dyn vs fs w' last' c' oc1 Hx H Ho. destruct x as [o|r k sdyn svs sfs dops|r k dops]; [destruct Hx| |];
+      cbn [at_path_xs] in H.
+    - destruct (detached F lvalidate lto_python ldefault lcallable lflag vrun w sdyn svs sfs dops) as [w1 src].
+      destruct (at_path ps w1 pre c dyn vs fs (obj_cop r k src)) as [[w2 c1] o1] eqn:E. inversion H; subst.
+      eapply reject_unchanged; [| exact E | exact Ho]. destruct r; reflexivity.
+    - destruct last as [[src0 [[sdyn svs] sfs]]|]; [|inversion H; subst; reflexivity].
+      destruct (run_detached F lvalidate lto_python ldefault lcallable lflag vrun dops w src0 sdyn svs sfs) as [w1 src].
+      destruct (at_path ps w1 pre c dyn vs fs (obj_cop r k src)) as [[w2 c1] o1] eqn:E. inversion H; subst.
+      eapply reject_unchanged; [| exact E | exact Ho]. destruct r; reflexivity.
+  Qed.
 
   (* ---------------------------------------------------------------------------------------- *)
   (* C12: default marks (is_value_defined), defaults of a fresh configuration, reset           *)
